@@ -16,7 +16,9 @@ RULE = ("Directories are drawn by Hypothesis (plain, with link files / .cap / ab
         "file of full length) replaces the file, each followed by a listing request whose reply must equal the uncached "
         "reference listing byte for byte. The prefix lengths are enumerated completely per directory (exhaustive: true "
         "refers to this enumeration; the directories themselves are sampled). Concurrent readers: the states a reader "
-        "can observe while a writer runs are recorded through a write gate and each is replayed as a reader request. "
+        "can observe while a writer runs are recorded through a write gate and each is replayed as a reader request; "
+        "second actor: for prefixes 0, 1, size/2, size-1, before each of the reader's file-system calls that touch the "
+        "cache file another request removes or completes the file (every call index x both actions). "
         "Non-trivial: prefix strictly between 0 and size; distinct = (directory hash, file, prefix length).")
 ASSUMPTIONS = [
     "a killed writer, a full disk and a reader racing a writer all leave a prefix of the bytes the writer would have "
@@ -165,6 +167,8 @@ def check_case(case, ctx):
                 # restore the complete file for the next point
                 with open(path, "wb") as f:
                     f.write(orig)
+        if k == 1:
+            fails += _second_actor(cfg, root, ref, forms, ctx, d)
         ctx.label("deco:" + d["deco"], "cachefiles:%d" % len(caches))
         if k == 0:
             ctx.sample({"dir": d, "cache_files": caches}, cls=d["deco"])
@@ -192,6 +196,77 @@ def _dedup(fails):
             seen.add(f.sig)
             out.append(f)
     return out
+
+
+def _second_actor(cfg, root, ref, forms, ctx, d):
+    """A second request working on the same cut-off file: between any two of the reader's file-system calls that touch
+    the cache file, the other one may have removed it (its own recovery) or completed it (its own rewrite).  The
+    harness owns the schedule: before the reader's j-th VFS call on the cache file the action is applied."""
+    import pygopherd.handlers.base as hbase
+    path = os.path.join(root, ".cache.pygopherd.dir")
+    with open(path, "rb") as f:
+        orig = f.read()
+    size = len(orig)
+    methods = ["iswritable", "unlink", "stat", "isdir", "isfile", "exists", "open"]
+    saved = {m: getattr(hbase.VFS_Real, m) for m in methods}
+    state = {"n": 0, "at": None, "action": None}
+
+    def act():
+        if state["action"] == "remove":
+            try:
+                os.unlink(path)
+            except OSError:
+                pass
+        else:
+            with open(path, "wb") as f:
+                f.write(orig)
+
+    def wrap(m):
+        o = saved[m]
+
+        def w(self, selector, *a, **kw):
+            if isinstance(selector, str) and selector.endswith(".cache.pygopherd.dir"):
+                if state["n"] == state["at"]:
+                    act()
+                state["n"] += 1
+            return o(self, selector, *a, **kw)
+        return w
+    fails = []
+    for m in methods:
+        setattr(hbase.VFS_Real, m, wrap(m))
+    try:
+        for p in sorted({0, 1, size // 2, size - 1}):
+            if p < 0 or p > size:
+                continue
+            # dry run: how many calls touch the cache file when nothing interferes
+            with open(path, "wb") as f:
+                f.write(orig[:p])
+            state.update(n=0, at=None)
+            _listing(cfg, "gopher")
+            ncalls = state["n"]
+            for action in ("remove", "complete"):
+                for j in range(ncalls + 1):
+                    with open(path, "wb") as f:
+                        f.write(orig[:p])
+                    state.update(n=0, at=j, action=action)
+                    form = forms[j % len(forms)]
+                    r = _listing(cfg, form)
+                    ctx.count("second_actor_schedules")
+                    ctx.evaluations += 1
+                    ctx.nontriv((d, "second-actor", p, action, j))
+                    if _mask(r.response) != ref[(b"/", form)] or r.escaped is not None:
+                        what = (r.handled_signatures() or ["wrong-listing"])[-1] if not r.escaped else drive.exc_signature(r.escaped)
+                        fails.append(Fail("second-actor:%s:%s" % (action, what),
+                                          "cache cut to %d of %d bytes and a second request %ss the file before the reader's "
+                                          "file-system call %d of %d on it: %s listing is not the complete correct listing: %r" % (
+                                              p, size, action, j, ncalls, form, r.response[:100]), {"logs": r.logs[-2:]}))
+                        break
+    finally:
+        for m in methods:
+            setattr(hbase.VFS_Real, m, saved[m])
+        with open(path, "wb") as f:
+            f.write(orig)
+    return fails
 
 
 def _observe_writer(cfg, root):
